@@ -372,6 +372,13 @@ def _rng_path(root, key, depth):
   return -1
 
 
+def _scalar(leaf):
+  dt = np.dtype(leaf[0])
+  if dt.kind == 'V' and dt.itemsize == 2:       # bfloat16 (a void dtype to plain numpy): the upper half of a float32
+    return float(np.frombuffer((np.frombuffer(leaf[2], np.uint16).astype(np.uint32) << 16).tobytes(), np.float32)[0])
+  return float(np.frombuffer(leaf[2], dt)[0])
+
+
 def _loose(a, b):
   """same leaves; a 0-d numeric leaf may differ in dtype (a numpy float64 0-d array accumulates in float64 where the
   Python-float / jax state accumulates in float32) when the value agrees to float32 rounding"""
@@ -382,7 +389,7 @@ def _loose(a, b):
       continue
     if x == 'deleted' or y == 'deleted' or x[1] != () or y[1] != ():
       return False
-    u, v = float(np.frombuffer(x[2], np.dtype(x[0]))[0]), float(np.frombuffer(y[2], np.dtype(y[0]))[0])
+    u, v = _scalar(x), _scalar(y)
     tol = 2e-2 if min(np.dtype(x[0]).itemsize, np.dtype(y[0]).itemsize) <= 2 else 1e-6     # a float16 / bfloat16 running sum is coarse
     if x[0] == y[0] or not (abs(u - v) <= tol * max(1.0, abs(u))):      # float64 vs float32 (vs float16) accumulation of the same sum
       return False
